@@ -96,6 +96,16 @@ func constraintMenu() []wlItem {
 		{"pend-web-anti-web-host-x2", world.WL{Queue: "qa", MinMember: 1, Pods: constrPods(2, "", "", withLabels(web, antiAffinity("web", "kubernetes.io/hostname")))}},
 		{"pend-web-anti-db-zone", world.WL{Queue: "qa", PC: "p75", Pods: constrPods(1, "", "", withLabels(web, antiAffinity("db", lblZone)))}},
 		{"pend-web-aff-db-zone", world.WL{Queue: "qb", Pods: constrPods(1, "", "", withLabels(web, podAffinity("db", lblZone)))}},
+		// a pod that carries a label others avoid but has no (anti-)affinity terms of its own, pinned to the
+		// hdd node of zone b; and a PENDING guard whose required anti-affinity selects it
+		{"pend-weblabel-sel-hdd-zone-b", world.WL{Queue: "qa", Pods: constrPods(1, "", "", func(p *corev1.Pod) {
+			withLabels(web, nil)(p)
+			p.Spec.NodeSelector = map[string]string{lblDisk: "hdd", lblZone: "b"}
+		})}},
+		{"pend-db-anti-web-zone-sel-zone-b", world.WL{Queue: "qa", Pods: constrPods(1, "", "", func(p *corev1.Pod) {
+			withLabels(db, antiAffinity("web", lblZone))(p)
+			p.Spec.NodeSelector = map[string]string{lblZone: "b"}
+		})}},
 		{"run-db-n1", world.WL{Queue: "qb", Pods: constrPods(1, world.StRunning, "n1", withLabels(db, nil))}},
 		{"run-db-anti-web-zone-n2", world.WL{Queue: "qb", Pods: constrPods(1, world.StRunning, "n2", withLabels(db, antiAffinity("web", lblZone)))}},
 		{"run-web-anti-web-host-n1", world.WL{Queue: "qb", Pods: constrPods(1, world.StRunning, "n1", withLabels(web, antiAffinity("web", "kubernetes.io/hostname")))}},
